@@ -8,6 +8,9 @@ INVARIANT LawTablesDefaults
 INVARIANT LawTablesNeutral
 INVARIANT LawTablesBase
 INVARIANT LawTablesUnknown
+INVARIANT LawTablesInherit
+INVARIANT LawNumericalRefines
+INVARIANT LawMatrixExtends
 INVARIANT LawExpectDomain
 INVARIANT LawSingleVerdict
 INVARIANT LawDefaultsComplete
@@ -25,3 +28,4 @@ INVARIANT LawNestedInjective
 INVARIANT LawNestedPrefix
 INVARIANT LawSquareHermitian
 INVARIANT LawSquarePlain
+INVARIANT LawIntervalCurly
